@@ -79,6 +79,11 @@ CLAIMED = {
    text="Into valid base programs one faulty line of each of 21 kinds is inserted at every position on the assembling path (top level and inside taken branches); the build must fail and the error text must contain the token `line: p`. Message placements (.message/.warning at top level and in taken/untaken branches) must leave the images unchanged and yield exactly the expected message list (text, line, order, kinds distinguishable); .error must fail wherever assembled.",
    note="Programs start with a comment so p >= 2 (PEG errors embed `line: 1`); for duplicate labels either defining line is accepted; no macros (attribution not specified).",
    design="§6 C15"),
+ "C16": dict(
+   technique="crash/hang/memory monitoring of isolated worker processes: panic hook + catch_unwind, counting allocator with hard cap, hook step budget, signal/exit-status supervision; bounded-exhaustive dictionary lines, structure-aware hostile programs, mutation fuzzing (thorough: + valgrind memcheck and Miri legs)",
+   text="Every case is built alone in a worker process (8 MiB main-thread stack) under a panic hook, a counting allocator capped at 256 MiB live heap, a hook step budget of 5e7 (deterministic hang verdict) and signal supervision: all one-line programs head x operand tuples of length 0-2 over a 47-entry hostile dictionary (complete; length 3 sampled in quick, complete in thorough), ~160 structure-aware hostile programs (unbalanced/deep conditionals and macros, recursive macros/.equ, expression ladders to depth 30000, absurd .org/.byte, 60 KB tokens, self-including files) and byte/token mutations of valid generated programs. Any panic, signal death, cap or budget hit is a violation; abnormal verdicts are reproduced alone before they are reported.",
+   note="\"Promptly\" is restated as <= 5e7 hook steps for inputs <= 64 KiB and \"out of proportion\" as > 256 MiB live heap; a wall-clock backstop firing alone is inconclusive. One open known finding (exponential macro expansion), see KNOWN_FINDINGS.txt.",
+   design="§6 C16"),
 }
 
 PENDING_REASON = "check not built yet in this round (work in progress; design in DESIGN.md §6)"
